@@ -1249,8 +1249,11 @@ impl ByteCodeGenerator {
                 let t = self.find(&time);
 
                 let dst = self.vregister.add_newvalue(&dst);
+                // the instruction names its own entry of the delay-size table
+                let delay_idx = u8::try_from(funcproto.delay_sizes.len())
+                    .expect("too many delays in one function");
                 funcproto.delay_sizes.push(max);
-                Some(VmInstruction::Delay(dst, s, t))
+                Some(VmInstruction::Delay(dst, s, t, delay_idx))
             }
             mir::Instruction::Mem(src) => {
                 let s = self.find(&src);
